@@ -124,6 +124,32 @@ func c18(r *Report, s *Sem) {
 	R3 := r.Rule("R3", "callback pairing: exactly one call site of the Established callback, not in a cycle, gated by state==established, before the dispatch loop; the Finished callback in a defer armed once after it, whose block first finishes the session on its established edge", 4)
 	R4 := r.Rule("R4", "the transport consumer starts one goroutine per dequeued transport and returns on context end; acceptors return on context end or listener error; every transport listener's Accept has a context arm", 5)
 	R6 := r.Rule("R6", "package-level maps written at run time by listeners are accessed only under a mutex (a dial concurrent with server start/stop must not be a concurrent map access)", 3)
+	R7 := r.Rule("R7", "one stop signal per serve cycle: a channel that a listener's Close closes is created by its Listen, so a server that is started again after Close gets a live signal (with the signal created once, the second cycle's Accept returns at once instead of serving, and the second Close closes a closed channel)", 1)
+	if tl := p.Type("TransportListener"); tl != nil {
+		for _, closeFn := range p.Implementations(tl, "Close") {
+			nt := namedOf(recvType(closeFn))
+			if nt == nil {
+				continue
+			}
+			listenFn := p.Method(nt.Obj().Name(), "Listen")
+			for _, site := range p.chanCloseSites([]*ssa.Function{closeFn}) {
+				if site.field == nil {
+					continue
+				}
+				made := false
+				if listenFn != nil {
+					for f := range p.reachable(listenFn) {
+						for _, st := range fieldStores([]*ssa.Function{f}, site.field) {
+							if _, isMake := stripConv(st.Val).(*ssa.MakeChan); isMake {
+								made = true
+							}
+						}
+					}
+				}
+				r.Check(R7, "type "+nt.Obj().Name()+" / "+site.field.Name()+" closed by Close is made by Listen", p.instrPos(site.in), made, "the channel closed when the listener stops must be created when it starts listening")
+			}
+		}
+	}
 
 	// ---- R1
 	type owner struct {
